@@ -167,12 +167,14 @@ class C18(Prop):
             return "%02x81000034020701ffff" % (0xC0 | wrong)
         return "%02x8100003201070100000000ffff" % (0xC0 | wrong)
 
-    def one_case(self, rng, i, tier):
+    def one_case(self, rng, i, tier, force=None):
         sid = "c18_%d" % i
         kind = rng.choice(["plain", "plain", "plain", "varied", "inject", "inject", "inject", "dishonest", "saturated",
                            "need", "tamper", "tamper", "drop", "dup", "overflow", "overflow", "noclock", "multi",
                            "timeout-edge", "late", "chaos", "chaos", "chaos"])
         proc = rng.choice(PROCS)
+        if force is not None:
+            kind, proc = "overflow", force[0]
         c0 = self.rand_c0(rng)
         meta = {"kind": kind, "proc": proc, "c0": c0}
 
@@ -378,17 +380,18 @@ class C18(Prop):
             total = 2 * f1 + 2 * (b1 + h)
             margin = rng.choice([0, 1, 2, f1, f1 + 1, f1 + b1 + h, f1 + b1 + h - 1, f1 + b1 + h + 1, total, total + 1,
                                  (f1 + b1) // 2, (f1 + b1) // 2 + 1, rng.range(0, total + 2)])
-            if rng.chance(2, 3):
+            if rng.chance(2, 3) or force is not None:
                 # the boundaries of each procedure: the last schedule that still fits, the first that does not
                 tr1 = f1 + b1 + h
+                pick = (lambda l: l[force[1] % len(l)]) if force is not None else rng.choice
                 if proc == "lan":
                     edge = b1 + h + f1                       # written = c0 + (arrival of WRITE - arrival of RECORD)
-                    margin = edge + rng.choice([0, -1, 1, -2])
+                    margin = edge + pick([0, -1, 1, -2])
                 elif proc == "nonlan":
                     prop = (f1 + b1) // 2
-                    margin = rng.choice([tr1 + prop, tr1 + prop - 1, tr1 + prop + 1, tr1, tr1 - 1, tr1 + prop // 2])
+                    margin = pick([tr1 + prop, tr1 + prop - 1, tr1 + prop + 1, tr1, tr1 - 1, tr1 + prop // 2])
                 else:
-                    margin = rng.choice([0, 0, 1, -1])
+                    margin = pick([0, 0, 1, -1])
             c0 = MAXTS - margin if margin >= 0 else MAXTS
             if margin < 0:
                 # the master clock passes 2^48-1 before the task even starts: start it late enough
@@ -466,6 +469,14 @@ class C18(Prop):
     def cases(self, rng, tier):
         n = 320 if tier == "quick" else 5200
         cands = [self.one_case(rng, i, tier) for i in range(n)]
+        # deterministic: every boundary of the 48-bit range for every procedure (the last schedule that still fits, the
+        # first that does not) - seeded change C18_c was caught by chance only
+        k = n
+        for proc in PROCS:
+            for edge in range(6):
+                for rep in range(2):
+                    cands.append(self.one_case(rng, k, tier, force=(proc, edge)))
+                    k += 1
         # drop the scripts in which a task would be offered two stimuli at the same instant (the model
         # says so): tokio's select! then picks at random and no single trace is "the" behaviour
         build_model()
